@@ -31,9 +31,11 @@ def main(argv=None):
     reach = None
     try:
         mod = importlib.import_module('vmon.props.' + opts.prop.lower())
-        if opts.tier == 'thorough':
-            from vmon.model import set_large_sizes
-            set_large_sizes(True)
+        from vmon.model import set_declaration_order_varies, set_large_sizes
+        from vmon.model.grids import set_wide_longitudes
+        set_large_sizes(opts.tier == 'thorough')
+        set_declaration_order_varies(False)     # drivers switch these two on themselves
+        set_wide_longitudes(False)
         ctx = Context(opts, obs)
         anchors = getattr(mod, 'ANCHORS', [])
         reach = probes.ReachMonitor(anchors)
